@@ -13,7 +13,7 @@ from prosemirror.transform.transform import TransformError
 
 ID = "C18"
 CORR_MODULE = "Corr.C18"
-LEVEL = "exploration"
+LEVEL = "proof"
 SHARD = 80
 
 FAMS = ["iso", "table"]
